@@ -470,3 +470,24 @@ Theorem C01_the_source_of_extend_any_iterator :
   end.
 Proof. exact extend_source. Qed.
 Print Assumptions C01_the_source_of_extend_any_iterator.
+
+(* END TO END for FromIterator::from_iter over ANY iterator script: a NEW vector holding exactly the
+   elements yielded before the first None, in order; nothing that existed before is touched, also when
+   the iterator or a push panics *)
+Theorem C01_the_source_of_from_iter_collects_what_the_iterator_yields :
+  forall cfg ncap, cfg_ok cfg -> policy_ok ncap -> needs_drop cfg = true ->
+  forall s sc F,
+  (S (List.length sc) <= F)%nat ->
+  let '(n, p) := yields sc in
+  match run_from_iter cfg ncap (FUEL + F) sc s with
+  | (Norm r, s') =>
+      p = false /\ r = VObj (List.length (vecs s)) /\
+      vabs cfg s' (List.length (vecs s)) (zseq (next_elem s) n) /\
+      next_elem s' = next_elem s + Z.of_nat n /\
+      (forall e, e < next_elem s -> ledger s' e = ledger s e)
+  | (Panic, s') => forall e, e < next_elem s -> ledger s' e = ledger s e
+  | (Fail FAbort, _) | (Fail (FAllocAbort _ _), _) => True
+  | _ => False
+  end.
+Proof. exact from_iter_source. Qed.
+Print Assumptions C01_the_source_of_from_iter_collects_what_the_iterator_yields.
